@@ -135,6 +135,16 @@ func Harness_C01_x25519_e2e() {
 	case 4:
 		recips = []Recipient{idB.Recipient(), idB.Recipient(), idA.Recipient()}
 	}
+	// a stanza of an unknown type (body shorter, as long as or longer than a native
+	// wrapped key) in front of or behind the native ones must not matter
+	if V.Bool("foreign") {
+		f := foreignRecipient{n: []int{0, 32, 33, 256}[V.Int("fbody", 0, 3)]}
+		if V.Bool("ffirst") {
+			recips = append([]Recipient{f}, recips...)
+		} else {
+			recips = append(recips, f)
+		}
+	}
 	P := V.Bytes("P", payloadLen())
 	var file bytes.Buffer
 	w, err := Encrypt(&file, recips...)
